@@ -1,0 +1,11 @@
+//go:build verif
+
+package verifhooks
+
+import (
+	"github.com/in-toto/in-toto-golang/internal/spiffe"
+)
+
+// SVIDDetails makes the conversion of an X.509-SVID into an in-toto key
+// (internal/spiffe, SVIDDetails.InTotoKey) reachable from outside the module.
+type SVIDDetails = spiffe.SVIDDetails
